@@ -228,12 +228,21 @@ func (s *serverSocket) close(reason Reason, err error) {
 
 		defer s.getCallbacks().OnClose(reason, err)
 
-		if reason != ReasonTransportClose && reason != ReasonTransportError {
+		closeTransport := func() {
 			s.transportMu.RLock()
 			defer s.transportMu.RUnlock()
 			if s.transport != nil {
 				s.transport.Close()
 			}
+		}
+
+		if reason == ReasonPingTimeout {
+			// The peer is unresponsive. Closing the transport gracefully can take
+			// seconds (the WebSocket closing handshake waits for the peer's reply),
+			// so it must not delay the close notification.
+			go closeTransport()
+		} else if reason != ReasonTransportClose && reason != ReasonTransportError {
+			closeTransport()
 		}
 	})
 }
